@@ -83,12 +83,6 @@ Definition pick_arg (f : fn_record) (id : string) : dexpr :=
 (* BConst true and Const 0 are never refutable, so a refutation of a picked obligation shows it exists *)
 
 (* ------------------------------------------------------------------ the records of the open entry points *)
-Definition lines_end_rec : fn_record :=
-  mkFn "trimesh_lines_end" env_len_trimesh_lines_end env_exc_trimesh_lines_end cmps_trimesh_lines_end
-       rets_trimesh_lines_end args_trimesh_lines_end.
-Definition inside_rec : fn_record :=
-  mkFn "trimesh_inside" env_len_trimesh_inside env_exc_trimesh_inside cmps_trimesh_inside
-       rets_trimesh_inside args_trimesh_inside.
 Definition cylseg_rec : fn_record :=
   mkFn "cylinder_segment" env_len_cylinder_segment env_exc_cylinder_segment cmps_cylinder_segment
        rets_cylinder_segment args_cylinder_segment.
@@ -97,29 +91,11 @@ Definition cases_rec : fn_record :=
        cmps_cylinder_segment_cases rets_cylinder_segment_cases args_cylinder_segment_cases.
 
 Lemma recs_in_functions :
-  In lines_end_rec functions /\ In inside_rec functions /\ In cylseg_rec functions /\ In cases_rec functions.
+  In cylseg_rec functions /\ In cases_rec functions.
 Proof. unfold functions. repeat split; simpl; tauto. Qed.
 
 (* all refutations use the unit change t = 2 (every length multiplied by 4); unnamed variables are 0 *)
 Open Scope Q_scope.
-
-(* lines_end_in_trimesh: |(a x b) . d| < 1e-12 -- facet (1,0,0),(0,1,0),(0,0,1), ray from 0 to (0,0,5e-13) *)
-Lemma lines_end_area_refuted :
-  refutes lines_end_rec (pick_cmp lines_end_rec "trimesh_lines_end>lines_end_in_trimesh>np.abs(area1) < eps" 0).
-Proof.
-  apply (refuteQ_sound _ _ 2 [("0.0.0.faces@trimesh_lines_end", 1); ("0.1.1.faces@trimesh_lines_end", 1);
-                              ("0.2.2.faces@trimesh_lines_end", 1);
-                              ("0.1.2.lines@trimesh_lines_end", 1 # 2000000000000)]).
-  vm_compute. reflexivity.
-Qed.
-
-(* lines_end_in_trimesh: |l1 - ref|^2 < 1e-16 -- end point 5e-9 from the reference vertex *)
-Lemma lines_end_coincide_refuted :
-  refutes lines_end_rec (pick_cmp lines_end_rec "trimesh_lines_end>lines_end_in_trimesh>v_norm2(l1 - ref_pts) < eps" 0).
-Proof.
-  apply (refuteQ_sound _ _ 2 [("0.1.0.lines@trimesh_lines_end", 1 # 200000000)]).
-  vm_compute. reflexivity.
-Qed.
 
 (* BHJM_cylinder_segment: r < r2 + 1e-14 -- observer (3,4,0), r2 = 5 - 5e-15 *)
 Lemma cylseg_margin_refuted :
@@ -146,14 +122,5 @@ Lemma cases_close_refuted :
     "cylinder_segment_cases>determine_cases>close(r, 0)>np.isclose(arg1, arg2, rtol=1e-12, atol=1e-12)" 0).
 Proof.
   apply (refuteQ_sound _ _ 2 [("0.r@cylinder_segment_cases", 1 # 2000000000000)]).
-  vm_compute. reflexivity.
-Qed.
-
-(* mask_inside_trimesh: the ray start min(vertices) - 12.0012345 is NOT a length *)
-Lemma ray_start_refuted :
-  refutes_deg inside_rec 2 (pick_arg inside_rec
-    "trimesh_inside>mask_inside_trimesh>lines_end_in_trimesh(test_lines, faces)>arg:lines.0").
-Proof.
-  apply (refuteQ_deg_sound _ _ _ 2 []).
   vm_compute. reflexivity.
 Qed.
